@@ -100,6 +100,21 @@ impl Backend {
             .unwrap_or(MutableDictionary::new())
     }
 
+    /// Load a dictionary that is about to be extended and written back.
+    /// One that does not exist yet starts out empty, but one that exists and cannot be read
+    /// (too many open files, an I/O error, missing permissions) is an error: writing the new
+    /// word back on top of it would silently drop every word it holds.
+    async fn load_dict_for_update(path: PathBuf) -> Result<MutableDictionary> {
+        match load_dict(&path).await {
+            Ok(dict) => Ok(dict),
+            Err(err) if err.kind() == std::io::ErrorKind::NotFound => Ok(MutableDictionary::new()),
+            Err(err) => Err(anyhow!(
+                "Unable to read the dictionary at {}, leaving it untouched: {err}",
+                path.display()
+            )),
+        }
+    }
+
     async fn save_user_dictionary(&self, dict: impl Dictionary) -> Result<()> {
         let config = self.config.read().await;
 
@@ -586,7 +601,16 @@ impl LanguageServer for Backend {
 
                 let file_url = second.parse().unwrap();
 
-                let mut dict = self.load_user_dictionary().await;
+                let user_dict_path = self.config.read().await.user_dict_path.clone();
+                let mut dict = match Self::load_dict_for_update(user_dict_path)
+                    .await
+                    .map_err(|err| error!("{err}"))
+                {
+                    Ok(dict) => dict,
+                    Err(_) => {
+                        return Ok(None);
+                    }
+                };
                 dict.append_word(word, WordMetadata::default());
                 self.save_user_dictionary(dict)
                     .await
@@ -603,13 +627,17 @@ impl LanguageServer for Backend {
                     return Ok(None);
                 };
 
-                let file_url = second.parse().unwrap();
+                let file_url: Url = second.parse().unwrap();
 
-                let mut dict = match self
-                    .load_file_dictionary(&file_url)
-                    .await
-                    .map_err(|err| error!("{err}"))
-                {
+                let loaded = if file_url.scheme() == "untitled" {
+                    Ok(MutableDictionary::new())
+                } else {
+                    match self.get_file_dict_path(&file_url).await {
+                        Ok(path) => Self::load_dict_for_update(path).await,
+                        Err(err) => Err(err),
+                    }
+                };
+                let mut dict = match loaded.map_err(|err| error!("{err}")) {
                     Ok(dict) => dict,
                     Err(_) => {
                         return Ok(None);
